@@ -399,11 +399,16 @@ fn obj_inputs(rng: &mut Rng, o: Obj, n: usize, stream: usize) -> (Vec<f32>, Vec<
 }
 
 fn rand_clamp(rng: &mut Rng) -> Option<(f32, f32)> {
-    match rng.below(5) {
-        0 | 1 => None,
-        2 => Some((-1.0, 1.0)),
-        3 => Some((-0.25, 3.0)),
-        _ => Some((0.5, 0.5)),
+    match rng.below(10) {
+        0 | 1 | 2 => None,
+        3 => Some((-1.0, 1.0)),
+        4 => Some((-0.25, 3.0)),
+        5 => Some((0.5, 0.5)),
+        // one-sided and unbounded intervals, tiny and asymmetric ones
+        6 => Some((f32::NEG_INFINITY, 0.1)),
+        7 => Some((-0.05, f32::INFINITY)),
+        8 => Some((f32::NEG_INFINITY, f32::INFINITY)),
+        _ => Some((-1e-6, 2e-6)),
     }
 }
 
